@@ -102,6 +102,19 @@ impl ArgMatcher {
         self.matches.args.remove(arg).is_some()
     }
 
+    /// Forget that `member` was seen for `group`, and the group itself once no member is left
+    pub(crate) fn remove_group_member(&mut self, group: &Id, member: &Id) {
+        let is_empty = if let Some(ma) = self.matches.args.get_mut(group) {
+            ma.remove_raw_val(std::ffi::OsStr::new(member.as_str()));
+            ma.num_vals() == 0
+        } else {
+            false
+        };
+        if is_empty {
+            self.matches.args.remove(group);
+        }
+    }
+
     pub(crate) fn contains(&self, arg: &Id) -> bool {
         self.matches.args.contains_key(arg)
     }
